@@ -685,9 +685,10 @@ def gen_items(ctx):
     shapes = _shapes(N, U)
     # ---- ages on exactly ultrametric trees, every mode and route
     sc = "ages@ultrametric"
-    ctx.scope(sc, "every ordered shape <=%d leaves (+ one unifurcation anywhere, <=%d leaves) x exactly ultrametric dyadic lengths {unit,dyadic,zeros} x "
-                  "root edge {None,0.5} x precision {default,0.25,0,None,False,-1} / force {max,min} x route {calc_node_ages, node_ages, "
-                  "internal_node_ages, internal-only flags}; plus restore (minimum_edge_length default/None/0.75) and hand-set ages; "
+    ctx.scope(sc, "every ordered shape <=%d leaves (+ one unifurcation anywhere, <=%d leaves) x exactly ultrametric dyadic lengths {unit,dyadic,zeros} "
+                  "(root edge None / 0.5 and rooting flag alternating) x calc_node_ages with precision {default,0.25,0,None,False,-1}, force {max,min} and "
+                  "force combined with a precision; the routes {calc_node_ages internal-only, node_ages, node_ages internal_only, internal_node_ages} "
+                  "for {default, force max, force min}; restore with minimum_edge_length {default,None,0.75}; hand-set ages (4 option modes, unit pattern); "
                   "non-trivial = >=3 leaves" % (N, U), exhaustive=True)
     modes = [dict(p="default"), dict(p=0.25), dict(p=0), dict(p="None"), dict(p="False"), dict(p=-1), dict(force="max"), dict(force="min"),
              dict(force="max", p=0), dict(force="min", p="None")]
@@ -762,11 +763,12 @@ def gen_items(ctx):
     items.append((sc, "depths", desc_of(((), ((), ())), [None, 2.0, 1.0, 1.0, 1.0], True), dict(variant="tm_divergence_times")))
     # ---- perturbations around the precision
     sc = "ultrametricity@perturbed"
-    ctx.scope(sc, "every shape <=%d leaves (+ unifurcation, <=%d leaves) x ultrametric {unit,dyadic} x every single non-root edge stretched by e x "
-                  "(precision, e) in {0.25: +-0.125,+-0.25,+-0.375; default 1e-5: +-0.5e-5,+-2e-5; 0: +-2^-20; 2^-10: +-2^-10, +-(2^-10+2^-30)} x "
-                  "{default check via calc_node_ages/node_ages/internal_node_ages/gamma, check disabled (None/False/-1), force max/min, restore}; "
-                  "verdicts: spread<=p must be accepted, specs.ages_stats.must_reject must raise UltrametricityError; non-trivial = >=3 leaves"
-              % (NP, UP), exhaustive=True)
+    ctx.scope(sc, "every shape <=%d leaves (+ unifurcation, <=%d leaves) x ultrametric {unit,dyadic} x every single non-root edge stretched by e (kept >= 0) x "
+                  "(precision, e) in {0.25: +-0.125,+-0.25,+-0.375; default 1e-5: +-0.5e-5,+-2e-5; 0: +-2^-20; 2^-10: +-2^-10, +-(2^-10+2^-30)}; for each: "
+                  "calc_node_ages(precision), one of node_ages/internal_node_ages/calc internal-only (rotating), restore, gamma (binary shapes; function / "
+                  "method alternating); for precision 0.25 and the +-2e-5 cases also: check disabled by None/False/-1 (rotating over the three routes) "
+                  "and force max / min; verdicts: spread<=p must be accepted, specs.ages_stats.must_reject must raise UltrametricityError; "
+                  "non-trivial = >=3 leaves" % (NP, UP), exhaustive=True)
     pshapes = _shapes(NP, UP)
     for si, s in enumerate(pshapes):
         if n_nodes(s) == 1:
